@@ -164,7 +164,7 @@ class SchemelessServer:
     def on_request(self, net: typing.Any, sc: typing.Any, req: typing.Any) -> None:
         from vf import wire
 
-        if req.target.startswith(b"/start"):
+        if b"/start" in req.target:
             sc.write(wire.build_response(302, "Found", headers=[("Location", self.location)], body=b""))
         else:
             sc.write(wire.build_response(200, body=b"ok"))
@@ -203,6 +203,31 @@ def judge_schemeless(rec: Recorder, start: str, location: str, other_host: str) 
         pm.clear()
 
 
+def judge_redirect_to_proxy_origin(rec: Recorder, location: str) -> None:
+    """Through a forwarding proxy: a.test redirects to the proxy's own origin.  The target differs from a.test in host and
+    port, so the sensitive headers must not travel on it."""
+    import urllib3
+
+    from vf import netsim
+
+    case = {"forwarding_proxy_redirect_to": location}
+    rec.mon("redirect_to_proxy_origin")
+    with netsim.Net(SchemelessServer(location)) as net:
+        pm = urllib3.ProxyManager("http://proxy.test:3128")
+        try:
+            pm.request("GET", "http://a.test/start", headers={"Authorization": "secret", "Cookie": "a=b", "X-Keep": "k"}, retries=urllib3.Retry(3))
+        except urllib3.exceptions.HTTPError:
+            rec.count("proxy_origin_redirect_request_failed")
+        reqs = [r for st in net.states for r in st.server.requests]
+        pm.clear()
+    for r in reqs[1:]:
+        names = {k.decode("latin-1").lower() for k, _ in r.headers}
+        leaked = sorted(names & {"authorization", "cookie"})
+        if leaked:
+            rec.fail(case, "sensitive-header-forwarded", {"client": "proxy", "header": leaked[0], "to": "the proxy's own origin", "from": "http://a.test", "location": location, "redirect_target_is_proxy_origin": True}, f"request for {r.target!r} after a redirect from http://a.test carries {leaked}")
+            return
+
+
 def random_case(rng: typing.Any) -> dict[str, typing.Any]:
     client = rng.choice(["manager", "manager", "proxy", "pool"])
     nh = rng.choice([1, 2, 2, 3, 4])
@@ -239,6 +264,10 @@ def random_case(rng: typing.Any) -> dict[str, typing.Any]:
 
 
 def run_shard(ctx: Ctx, rec: Recorder) -> None:
+    if ctx.shard == 0:
+        for loc in ("http://proxy.test:3128/landing", "http://PROXY.test:3128/landing?x=1", "//proxy.test:3128/landing"):
+            rec.case(["redirect-to-proxy-origin", loc])
+            judge_redirect_to_proxy_origin(rec, loc)
     rng = ctx.rng
     idx = 0
     # (i) systematic: chain shapes x codes x spellings x containers
